@@ -5,6 +5,7 @@ C04 — the statement shapes the translator emits for Python's lazy operators in
 
   a and b     preA;  r = a;  if (r)  { preB; r = b; }
   a or b      preA;  r = a;  if (!r) { preB; r = b; }
+  a or b or c   …the same, followed by   if (!r) { preC; r = c; }   (one more guarded step per operand)
   x if c else y      preC;  if (c) { preX; r = x; } else { preY; r = y; }
 
 `countShapes` recognises these shapes in a parsed program (run by the driver on the
@@ -59,8 +60,12 @@ def classify (prev : Option String) (st : Stmt) : Shapes :=
   | .ite _ _ (_ :: _) => ⟨0, 0, 1⟩
   | _ => {}
 
+/-- the result variable a statement has just (possibly) assigned: a plain assignment, or an earlier
+guarded operand of the same chain (`a or b or c` is `r = a; if (!r) {…r = b…} if (!r) {…r = c…}`) -/
 def setOf : Stmt → Option String
   | .set r _ => some r
+  | .ite (.var r) thn [] => if assignsL r thn then some r else none
+  | .ite (.un "!" (.var r)) thn [] => if assignsL r thn then some r else none
   | _ => none
 
 mutual
